@@ -36,6 +36,12 @@ def main(argv=None):
     try:
         sm = SourceMap(a.repo)
         facts = Facts(sm)
+        # private helpers that do not exist in the tree the rules were confirmed on are read through (hv/inline.py)
+        from .inline import normalise
+        sm2, inl_report = normalise(sm, facts)
+        if sm2 is not sm:
+            sm, facts = sm2, Facts(sm2)
+            ctx.analysed['helpers_inlined'] = {k: v[:12] for k, v in inl_report.items()}
         ctx.analysed['modules_parsed'] = len(facts.rels)
         ctx.analysed['modules_unparsable'] = sorted(sm.unparsable)
         ctx.analysed['classes'] = sum(len(v) for v in facts.classes.values())
